@@ -7,8 +7,10 @@ Sub-checks
   switch   Switch with 1-4 cases (list and dict form), key specs = small combinator trees, value specs
            = logging probes, with and without default
   checkkw  Check with every combination of type / instance_of / equal_to / one_of / validate / default /
-           sub-spec over typed targets; one_of spelled as list / tuple / set / frozenset / dict / dict.keys(); classes
-           that are iterable themselves (Enum classes, a class with an iterable metaclass) as type / instance_of
+           sub-spec over typed targets; one_of spelled as list / tuple / set / frozenset / dict / dict.keys() / a re-iterable
+           without __len__ / a str; classes that are iterable themselves (Enum classes, a class with an iterable metaclass)
+           as type / instance_of; membership tests that cannot be evaluated (unhashable target against a hashed container,
+           non-str against a str, an == that raises), bare and below Or(check, Val) / Match(check, default=)
   checkreuse  ONE Check object whose one_of (and optionally type / instance_of / validate) was given as a one-shot
            iterable (iter([...]) / generator), evaluated on 2-4 targets in a row: every evaluation decides like the
            first one would
@@ -18,7 +20,9 @@ Oracle: refbool() - Python's own and/or/not over the atoms' truth, short-circuit
 comparison that Python cannot evaluate "is not true": the atom rejects, with MatchError - whatever the comparison raised:
 TypeError ('a' > 0), decimal.InvalidOperation (a Decimal NaN in an ordering comparison), AttributeError (a value class with a
 duck-typed __lt__ compared with a number), ValueError (a comparison result without a truth value), LookupError, RecursionError
-(two self-containing lists), an exception class of the operand's own.
+(two self-containing lists), an exception class of the operand's own.  The same for the truth test of bare M / M(T-expr): a
+value without a truth value (an array with several elements) is not true.  Check: a value for which the test of equal_to /
+one_of cannot be evaluated is not shown to be equal to / one of the values: that condition fails (CheckError or the default).
 """
 import enum
 from decimal import Decimal
@@ -40,16 +44,26 @@ RULE = ('bool: combinator trees of depth <= 4 over <= 6 atoms, built by construc
         'Constructed classes: an ordering comparison Python cannot evaluate (TypeError) below Or / Not / a default / a Switch key; '
         'the same shapes around a comparison that raises something other than TypeError (Decimal NaN / sNaN, value classes with '
         'duck-typed comparison methods, a comparison result without truth value, self-containing lists), as M op c, c op M, '
-        'M(T[k]) op c and M(T[k]) op M(T[0]); '
+        'M(T[k]) op c and M(T[k]) op M(T[0]); a bare M / M(T[k]) on a value whose truth test raises (array-like with several '
+        'elements, __bool__ that raises / returns a non-bool, __len__ that raises) in the same shapes and as a Switch key; '
+        'Check(one_of= / equal_to=) whose membership test cannot be evaluated: list / dict targets against set / frozenset / '
+        'dict / keys, non-str targets against a str, pairs whose == raises (Decimal sNaN, value classes) as equal_to and in '
+        'list / tuple / re-iterable one_of, a re-iterable one_of without __len__; each bare, with default and below '
+        'Or(check, Val) / Match(check, default=); '
         'a one-element unindexable one_of that rejects without default; a bare Enum class as type / instance_of. '
         'Non-trivial = >= 2 combinators, or an observed short-circuit (a child that must not run), or a default used.')
 ASSUMPTIONS = [
     'atom truth is computed with the Python comparison itself; a comparison that raises is "not true": the atom rejects with '
     'MatchError, so Or tries the next child, Not passes, defaults apply and Switch goes on to the next case; this holds for every '
     'Exception subclass the comparison (or the truth test of its result) raises, not only for TypeError',
-    'Check(one_of=C) on a target for which Python\'s own `target in C` raises (unhashable target against a set / dict): both '
-    'readings are accepted - a failed condition (CheckError / default, the statement) or the exception of `in` (the docstring '
-    'defines one_of by "in") - nothing else (class membership-raises)',
+    'Check(one_of=C) / Check(equal_to=v) on a target for which Python\'s own `target in C` / `target == v` raises (unhashable '
+    'target against a set / dict, a non-str against a str, an == that raises): the value is not one of / equal to the values '
+    'given, the condition fails like for any other value that is not listed - CheckError or the default, and an Or / Match '
+    'around the Check reacts (class membership-raises; the first version accepted the escaping exception as well - F101)',
+    'bare M / M(T-expr) on a value whose truth test raises: not true, the atom rejects (class no-truth-value, F102)',
+    'one_of given as a str is only asked about single characters and non-str values ("in" on a str is a substring test: for '
+    'longer or empty strings it differs from "one of the values the iterable yields"; the reference stops with a harness error '
+    'if the two readings ever disagree)',
     'a failing T access inside a tree counts as "did not pass" for an enclosing Or/Not/Switch key and surfaces as PathAccessError at the root',
     'a validator that raises counts as a failed check (Check docstring); Not has no default',
 ]
@@ -198,7 +212,55 @@ class Strict(object):
         return 'Strict(%r)' % self.n
 
 
+class Arr(object):
+    """array-like with numpy's rules: the truth value of an array with more than one element is ambiguous (ValueError when
+    it is tested), one element: that element's, none: false; == and != compare element-wise and yield an Arr"""
+    def __init__(self, items):
+        self.items = list(items)
+
+    def __len__(self):
+        return len(self.items)
+
+    def __bool__(self):
+        if len(self.items) > 1:
+            raise ValueError('the truth value of an array with more than one element is ambiguous')
+        return bool(self.items and self.items[0])
+
+    def __eq__(self, other):
+        return Arr([x == other for x in self.items])
+
+    def __ne__(self, other):
+        return Arr([x != other for x in self.items])
+
+    __hash__ = None
+
+    def __repr__(self):
+        return 'Arr(%r)' % (self.items,)
+
+
+class BadTruth(object):
+    """__bool__ does not return a bool: TypeError when the truth value is taken"""
+    def __bool__(self):
+        return 'yes'
+
+    def __repr__(self):
+        return 'BadTruth()'
+
+
+class BadLen(object):
+    """a container whose truth value goes through a __len__ that raises an exception class of its own"""
+    def __len__(self):
+        raise Incomparable('length not available')
+
+    def __repr__(self):
+        return 'BadLen()'
+
+
 XCLASSES = {'ver': Version, 'money': Money, 'ambig': Ambig, 'grade': Grade, 'strict': Strict}
+# values that have no truth value: bool(v) raises
+NOTRUTH = [['arr', [1, 2]], ['arr', [0, 0]], ['arr', [0, 1, 2]], ['notruth'], ['badtruth'], ['badlen']]
+# array-likes that do have one
+ARR_TRUTH = [['arr', [1]], ['arr', [0]], ['arr', []]]
 
 
 def uses_exotic(r):
@@ -211,13 +273,18 @@ def uses_exotic(r):
 
 def bval(r):
     """value of a recipe: the grammar of vf.targets plus ["dec", text] / ["ver", n] / ["money", n] / ["ambig", n] /
-    ["grade", name] / ["strict", n] / ["selflist"], ["selfdict"] (a list / dict that contains itself) and the plain containers
+    ["grade", name] / ["strict", n] / ["selflist"], ["selfdict"] (a list / dict that contains itself), ["arr", [ints]] /
+    ["notruth"] / ["badtruth"] / ["badlen"] (values whose truth test raises, an Arr only with more than one element) and the plain containers
     ["xdict", [[key, R], ...]] / ["xlist", [R, ...]] around them.  Every call builds new objects."""
     tag = r[0]
     if tag == 'dec':
         return Decimal(r[1])
     if tag in XCLASSES:
         return XCLASSES[tag](r[1])
+    if tag == 'arr':
+        return Arr(r[1])
+    if tag in ('notruth', 'badtruth', 'badlen'):
+        return {'notruth': NoTruth, 'badtruth': BadTruth, 'badlen': BadLen}[tag]()
     if tag == 'selflist':
         l = []
         l.append(l)
@@ -426,6 +493,18 @@ def gen_cmp_atom(draw, family, forms=ATOM_FORMS):
     return ['xdict', [['k', a], [0, b]]], ['mm', 'k', op, 0]
 
 
+def gen_truth_atom(draw):
+    """(target, atom): a bare M on a value, or M(T[key]) on a container around it; 4 in 5 the value has no truth value
+    (NOTRUTH), else it is an array-like that has one (one element / empty)"""
+    v = draw(st.sampled_from(NOTRUTH if draw(st.sampled_from(range(5))) else ARR_TRUTH))
+    form = draw(st.sampled_from(['M', 'M', 'MT']))
+    if form == 'M':
+        return v, ['M']
+    if draw(st.booleans()):
+        return ['xdict', [['k', v]]], ['MT', 'k']
+    return ['xlist', [v]], ['MT', 0]
+
+
 def gen_incomparable_atom(draw):
     return gen_cmp_atom(draw, 'typeerror', ['m', 'm', 'rm'])
 
@@ -436,10 +515,14 @@ def gen_incomparable(draw, counter, family='typeerror'):
     by operators (left operands are M expressions / combinators).
     family 'typeerror': an ordering comparison of unorderable builtins, as M op c / c op M;
     family 'other': the comparison raises something else (RAISING_OTHER; 1 in 5: a free pair over the same value classes,
-    evaluable or not), in all four spellings of gen_cmp_atom; the children next to it are atoms without literal patterns."""
+    evaluable or not), in all four spellings of gen_cmp_atom; the children next to it are atoms without literal patterns;
+    family 'truth': the atom is a bare M / M(T[key]) and the value it tests has no truth value (gen_truth_atom)."""
     if family == 'typeerror':
         target, atom = gen_incomparable_atom(draw)
         atoms = gen_atom
+    elif family == 'truth':
+        target, atom = gen_truth_atom(draw)
+        atoms = gen_nolit_atom
     else:
         target, atom = gen_cmp_atom(draw, 'free' if draw(st.sampled_from(range(5))) == 0 else 'other')
         atoms = gen_nolit_atom
@@ -467,9 +550,11 @@ def gen_incomparable(draw, counter, family='typeerror'):
 def gen_bool(draw):
     counter = [0]
     k = draw(st.sampled_from(range(8)))
-    if k <= 1:
-        tree, target = gen_incomparable(draw, counter, 'typeerror' if k == 0 else 'other')
-        r = {'tree': tree, 'target': target, 'build': draw(st.sampled_from(['ctor', 'ops']))}
+    if k <= 2:
+        tree, target = gen_incomparable(draw, counter, ['typeerror', 'other', 'truth'][k])
+        # (M(T[key]) has no & | ~ of its own: constructor spelling)
+        r = {'tree': tree, 'target': target,
+             'build': 'ctor' if k == 2 and "'MT'" in repr(tree) else draw(st.sampled_from(['ctor', 'ops']))}
     else:
         ops_mode = draw(st.booleans())
         tree = gen_tree(draw, draw(st.integers(1, 4)), counter, ops_mode)
@@ -577,6 +662,27 @@ def ref_cmp(lhs, op, v, notes=None, form='m'):
     return ok
 
 
+def ref_truth(v, notes=None, form='M'):
+    """bare M / M(T-expr): "passes when the target (the value of the T-expression) is truthy".  A value whose truth test raises
+    (an array with several elements) is not true: the atom rejects like any other atom that is not true, Or goes on, Not
+    passes, defaults apply.  notes records that it happened: ('truth', spelling)."""
+    try:
+        return bool(v)
+    except Exception:
+        if notes is not None:
+            notes.append(('truth', form))
+        return False
+
+
+def label_no_truth(ctx, notes, recovered):
+    """class labels for a case in which the reference met a bare M / M(T-expr) on a value without a truth value"""
+    ctx.label('no-truth-value')
+    if recovered:
+        ctx.label('no-truth-value-recovered')
+    if any(form == 'MT' for _, form in notes):
+        ctx.label('no-truth-value-subspec')
+
+
 def label_cmp_raises(ctx, notes, recovered):
     """class labels for a case in which the reference met a comparison that raises; recovered = the whole expression is
     true / a case or default was chosen all the same"""
@@ -620,7 +726,7 @@ def refbool(t, target, log, notes=None):
         if tag == 't':
             return sub
         if tag == 'MT':
-            if sub:
+            if ref_truth(sub, notes, 'MT'):
                 return target
             raise Rej('falsy')
         if ref_cmp(sub, t[2], bval(t[3]), notes, 'mt'):
@@ -640,7 +746,7 @@ def refbool(t, target, log, notes=None):
             return target
         raise Rej('cmp')
     if tag == 'M':
-        if target:
+        if ref_truth(target, notes, 'M'):
             return target
         raise Rej('falsy')
     if tag == 'type':
@@ -747,10 +853,15 @@ def check_bool(recipe, ctx):
     short = len(rlog) < count_preds(tree)
     if short:
         ctx.label('short-circuit')
+    tnotes = [n for n in notes if n[0] == 'truth']
+    notes = [n for n in notes if n[0] != 'truth']
     if notes:
         # an atom whose Python comparison raises; "recovered" = the whole expression is true all the same, i.e. an Or went
         # on to a later child, a Not inverted the rejection or a default (And / Or / Match) replaced it
         label_cmp_raises(ctx, notes, exp[0] == 'ok')
+    if tnotes:
+        # a bare M / M(T-expr) whose value has no truth value
+        label_no_truth(ctx, tnotes, exp[0] == 'ok')
     if uses_exotic([tree, recipe['target']]):
         # operands of the value classes of RAISING_OTHER / EXOTIC; "evaluated": every comparison reached could be evaluated
         ctx.label('exotic-operand')
@@ -849,10 +960,11 @@ def gen_switch(draw):
     n = draw(st.integers(1, 4))
     # constructed classes (1 in 6 each): the key spec of an early case is a comparison Python cannot evaluate on this target -
     # 'typeerror': unorderable builtins; 'other': it raises something else (1 in 5: a free pair over the same value classes);
+    # 'truth': a bare M / M(T[key]) whose value has no truth value;
     # that case does not pass (Switch goes on to the next one), or passes when the key is its negation
     k = draw(st.sampled_from(range(6)))
-    family = {0: 'typeerror', 1: 'other'}.get(k)
-    atoms = gen_nolit_atom if family == 'other' else gen_atom
+    family = {0: 'typeerror', 1: 'other', 2: 'truth'}.get(k)
+    atoms = gen_atom if family in (None, 'typeerror') else gen_nolit_atom
     cases = []
     for i in range(n):
         key = gen_tree(draw, draw(st.integers(0, 2)), counter, False, atoms)
@@ -864,6 +976,9 @@ def gen_switch(draw):
     if family is not None:
         if family == 'typeerror':
             r['target'], atom = gen_incomparable_atom(draw)
+        elif family == 'truth':
+            # the key spec is a bare M / M(T[key]) on a value without a truth value
+            r['target'], atom = gen_truth_atom(draw)
         else:
             r['target'], atom = gen_cmp_atom(draw, 'free' if draw(st.sampled_from(range(5))) == 0 else 'other')
         i = draw(st.integers(0, min(1, n - 1)))
@@ -908,9 +1023,14 @@ def check_switch(recipe, ctx):
         kw['default'] = build_default(recipe['default'])
     spec = Switch(cases, **kw)
     ctx.label('exp-' + exp[0], 'form-' + recipe['form'], 'default' if kw else 'no-default')
+    tnotes = [n for n in notes if n[0] == 'truth']
+    notes = [n for n in notes if n[0] != 'truth']
     if notes:
         # a key spec whose comparison Python cannot evaluate was reached; "recovered" = a case / the default was chosen all the same
         label_cmp_raises(ctx, notes, exp[0] == 'ok')
+    if tnotes:
+        # a key spec that is a bare M / M(T-expr) on a value without a truth value was reached
+        label_no_truth(ctx, tnotes, exp[0] == 'ok')
     ctx.nontrivial(len(recipe['cases']) >= 2)
     where = 'spec=%r target=%r' % (spec, target)
     got = run(target, Match(spec))
@@ -982,8 +1102,20 @@ CHECK_TARGETS = [['i', 0], ['i', 1], ['i', 5], ['s', 'a'], ['s', ''], ['b', True
                  ['dict', [['k', ['i', 1]]]], ['dict', [['k', ['s', 'a']]]], ['list', [['i', 1]]]] + SPECIAL_TARGETS
 ONE_OF_VALUES = [['i', 1], ['i', 5], ['s', 'a'], ['none']]
 # "one_of: an iterable of values": containers that can be iterated again and again ...
-ONE_OF_CONTAINERS = ['list', 'tuple', 'set', 'frozenset', 'dict', 'keys']
+ONE_OF_CONTAINERS = ['list', 'tuple', 'set', 'frozenset', 'dict', 'keys', 'reiter']
 UNINDEXABLE = ('set', 'frozenset', 'dict', 'keys')
+HASHED = UNINDEXABLE                    # containers whose `in` hashes the target
+# targets that cannot be hashed (`t in {...}` raises TypeError) and are equal to none of ONE_OF_VALUES
+UNHASHABLE_TARGETS = [['list', [['i', 1]]], ['list', []], ['dict', [['k', ['i', 1]]]], ['dict', []], ['list', [['s', 'a']]]]
+# one_of given as a str: `1 in 'abc'` raises TypeError ('in <string>' requires string as left operand); the str targets are
+# single characters, for which "in" and "one of the values the iterable yields" say the same
+STR_CHARS = ['a', 'b', 'c']
+STR_CONTAINER_TARGETS = [['i', 1], ['none'], ['f', 1.0], ['b', True], ['list', [['s', 'a']]], ['i', 5], ['s', 'a'], ['s', 'z'], ['s', 'b'],
+                         ['s', 'a'], ['s', 'c']]
+# (a, b): a == b raises (or yields something without a truth value) - the pairs of RAISING_OTHER that do so for ==, without the
+# self-containing containers
+EQ_RAISING = [(a, b) for fam in sorted(RAISING_OTHER) if fam != 'RecursionError'
+              for a, b, ops in RAISING_OTHER[fam] if '==' in ops]
 # ... and one-shot iterables (sub-check checkreuse)
 ONE_SHOT = ['iter', 'gen']
 TYPE_POOL = ['int', 'str', 'bool', 'float', 'int', 'str', 'Color', 'Level', 'Shelf']
@@ -995,7 +1127,40 @@ def build_ctarget(r):
         return ITERABLE_CLASSES[r[1]][r[2]]
     if r[0] == 'inst':
         return ITERABLE_CLASSES[r[1]]()
-    return tg.build(r).obj
+    if r[0] == 'xdict':
+        return dict((k, build_ctarget(v)) for k, v in r[1])
+    if r[0] == 'tag':
+        return Tag(r[1])
+    return bval(r)          # (the grammar of vf.targets plus the value classes of the bool sub-check)
+
+
+class Tag(object):
+    """a value that cannot be hashed and is equal to its name and to Tags of the same name: Tag('a') in ['a'] is true"""
+    def __init__(self, name):
+        self.name = name
+
+    def __eq__(self, other):
+        return self.name == (other.name if isinstance(other, Tag) else other)
+
+    def __ne__(self, other):
+        return not self == other
+
+    __hash__ = None
+
+    def __repr__(self):
+        return 'Tag(%r)' % self.name
+
+
+class Allowed(object):
+    """a re-iterable that is nothing but iterable: no __len__, no __contains__, no __getitem__ (`in` iterates it)"""
+    def __init__(self, vals):
+        self._vals = tuple(vals)
+
+    def __iter__(self):
+        return iter(self._vals)
+
+    def __repr__(self):
+        return 'Allowed(%r)' % (list(self._vals),)
 
 
 def spell_one_of(vals, how):
@@ -1016,6 +1181,12 @@ def spell_one_of(vals, how):
         return iter(vals)
     if how == 'gen':
         return (v for v in vals)
+    if how == 'reiter':
+        return Allowed(vals)
+    if how == 'str':
+        if not all(isinstance(v, str) and len(v) == 1 for v in vals):
+            raise HarnessBug('one_of spelled as a str needs one-character values, not %r' % (vals,))
+        return ''.join(vals)
     raise HarnessBug('unknown one_of spelling %r' % (how,))
 
 
@@ -1023,7 +1194,7 @@ def one_of_text(vals, how):
     body = ', '.join(repr(v) for v in vals)
     return {None: '[%s]', 'list': '[%s]', 'tuple': 'tuple([%s])', 'set': 'set([%s])', 'frozenset': 'frozenset([%s])',
             'dict': 'dict.fromkeys([%s])', 'keys': 'dict.fromkeys([%s]).keys()', 'iter': 'iter([%s])',
-            'gen': '(v for v in [%s])'}[how] % body
+            'gen': '(v for v in [%s])', 'reiter': 'Allowed([%s])', 'str': "''.join([%s])"}[how] % body
 
 
 def spell_types(ts, how, single_bare=True):
@@ -1051,10 +1222,10 @@ def build_check(recipe, log):
         txt.append('instance_of=%s' % ('iter(%r)' % (recipe['instance_of'],) if how == 'iter' else
                                        recipe['instance_of'][0] if len(ts) == 1 else '%s(%r)' % (how, recipe['instance_of'])))
     if recipe['equal_to'] is not None:
-        kw['equal_to'] = tg.build(recipe['equal_to']).obj
+        kw['equal_to'] = bval(recipe['equal_to'])
         txt.append('equal_to=%r' % (kw['equal_to'],))
     if recipe['one_of'] is not None:
-        vals = [tg.build(x).obj for x in recipe['one_of']]
+        vals = [bval(x) for x in recipe['one_of']]
         kw['one_of'] = spell_one_of(vals, recipe.get('one_of_as'))
         txt.append('one_of=%s' % one_of_text(vals, recipe.get('one_of_as')))
     if recipe['validate']:
@@ -1070,7 +1241,19 @@ def build_check(recipe, log):
         txt.append('default=%r' % (kw['default'],))
     args = () if recipe['sub'] is None else (T[recipe['sub']],)
     text = 'Check(%s)' % ', '.join([repr(a) for a in args] + txt)
-    return Check(*args, **kw), kw, text
+    spec = Check(*args, **kw)
+    # something around the Check that reacts to its failure
+    wrap = recipe.get('wrap')
+    if wrap == 'or':
+        spec, text = Or(spec, Val(ALT)), 'Or(%s, Val(%r))' % (text, ALT)
+    elif wrap == 'match':
+        spec, text = Match(spec, default=ALT), 'Match(%s, default=%r)' % (text, ALT)
+    elif wrap is not None:
+        raise HarnessBug('unknown wrap %r' % (wrap,))
+    return spec, kw, text
+
+
+ALT = 'alt'
 
 
 def gen_check_base(draw, type_pool=TYPE_POOL, instance_pool=INSTANCE_POOL):
@@ -1105,6 +1288,8 @@ def gen_check(draw):
         r['default'] = None
         if draw(st.booleans()):
             r['type'] = r['instance_of'] = r['validate'] = None
+    elif forced in (1, 2, 3, 4):
+        gen_membership(draw, r)
     elif forced in (6, 7):
         # constructed class: ONE class that is iterable itself, given bare, with instances and non-instances as targets
         which = draw(st.sampled_from(['type', 'instance_of']))
@@ -1115,8 +1300,67 @@ def gen_check(draw):
         if draw(st.booleans()):
             r['targets'] = [draw(st.sampled_from(SPECIAL_TARGETS))]
     if draw(st.integers(0, 5)) == 0:
-        r['targets'].append(draw(st.sampled_from(CHECK_TARGETS)))      # the same Check object once more
+        # the same Check object once more
+        if r['one_of_as'] == 'str' and r['one_of'] is not None:
+            again = draw(st.sampled_from(STR_CONTAINER_TARGETS))         # (not '': see STR_CONTAINER_TARGETS)
+            r['targets'].append(again if r['sub'] is None else ['xdict', [[r['sub'], again]]])
+        else:
+            r['targets'].append(draw(st.sampled_from(CHECK_TARGETS)))
     return r
+
+
+def gen_membership(draw, r):
+    """constructed classes around the membership test of one_of / equal_to (r is modified in place):
+    'unhashable'  a list / dict target against a set / frozenset / dict / dict.keys(): `in` raises TypeError
+    'str'         one_of is a str; non-str targets (`in` raises TypeError) and single characters
+    'eq'          a pair whose == raises (EQ_RAISING): one of them is the target, the other equal_to or a value of a one_of
+                  list / tuple / re-iterable, alone or next to a plain value
+    'reiter'      one_of is a re-iterable that has no __len__ (nothing raises: members and non-members)
+    'tag'         an unhashable target that is EQUAL to a listed value (or to none), one_of a list / tuple / re-iterable: `in`
+                  scans the values with ==, nothing raises, the target is listed
+    and, 1 in 2, something around the Check that reacts to its failure: Or(check, Val('alt')) / Match(check, default='alt')"""
+    shape = draw(st.sampled_from(['unhashable', 'unhashable', 'str', 'eq', 'eq', 'reiter', 'reiter', 'tag']))
+    r['equal_to'] = None
+    if shape == 'unhashable':
+        target = draw(st.sampled_from(UNHASHABLE_TARGETS))
+        r['one_of'] = draw(st.lists(st.sampled_from(ONE_OF_VALUES), min_size=1, max_size=3, unique_by=repr))
+        r['one_of_as'] = draw(st.sampled_from(HASHED))
+    elif shape == 'str':
+        target = draw(st.sampled_from(STR_CONTAINER_TARGETS))
+        r['one_of'] = [['s', c] for c in draw(st.lists(st.sampled_from(STR_CHARS), min_size=1, max_size=3, unique=True))]
+        r['one_of_as'] = 'str'
+    elif shape == 'eq':
+        target, other = draw(st.sampled_from(EQ_RAISING))
+        if draw(st.booleans()):
+            target, other = other, target
+        r['validate'] = None             # (the validators of this module are written for plain values)
+        if draw(st.sampled_from(range(3))) == 0:
+            r['equal_to'], r['one_of'] = other, None
+        else:
+            vals = [other]
+            if draw(st.booleans()):
+                vals.insert(draw(st.integers(0, 1)), draw(st.sampled_from(ONE_OF_VALUES)))
+            r['one_of'] = vals
+            r['one_of_as'] = draw(st.sampled_from(['list', 'tuple', 'reiter']))
+    elif shape == 'tag':
+        target = ['tag', draw(st.sampled_from(['a', 'a', 'a', 'zz', 1]))]
+        r['one_of'] = draw(st.lists(st.sampled_from(ONE_OF_VALUES), min_size=1, max_size=3, unique_by=repr))
+        r['one_of_as'] = draw(st.sampled_from(['list', 'tuple', 'reiter']))
+        r['type'] = r['validate'] = None
+        if r['instance_of']:
+            r['instance_of'] = ['object']
+    else:
+        target = r['targets'][0]
+        r['one_of'] = draw(st.lists(st.sampled_from(ONE_OF_VALUES), min_size=1, max_size=3, unique_by=repr))
+        r['one_of_as'] = 'reiter'
+        if draw(st.sampled_from(range(3))):
+            r['default'] = None
+    if draw(st.booleans()):
+        r['type'] = r['instance_of'] = r['validate'] = None
+    r['targets'] = [target if r['sub'] is None else ['xdict', [[r['sub'], target]]]]
+    wrap = draw(st.sampled_from([None, None, 'or', 'match']))
+    if wrap is not None:
+        r['wrap'] = wrap
 
 
 def gen_checkreuse(draw):
@@ -1150,7 +1394,10 @@ def gen_checkreuse(draw):
 
 def ref_check(recipe, target):
     """the conditions of the docstring on one target: {'access': bool, 'sub': value, 'failed': [...], 'member_exc': exc|None,
-    'validator_raised': bool}"""
+    'validator_raised': bool}.  equal_to / one_of: "enforces ... equal_to / one_of" - the value has to BE equal to / one of the
+    values given; a test that cannot be evaluated (an unhashable target against a set, a str container and a non-str, an ==
+    that raises) does not show that it is: the condition fails like for any other value that is not listed (member_exc
+    records the exception, for the class labels)."""
     out = {'access': True, 'sub': None, 'failed': [], 'member_exc': None, 'validator_raised': False}
     try:
         sub = target if recipe['sub'] is None else target[recipe['sub']]
@@ -1165,15 +1412,27 @@ def ref_check(recipe, target):
     # "equal_to: a value to be checked for equality match"; "one_of: an iterable of values, any of which can match ("in")"
     vals = None
     if recipe['equal_to'] is not None:
-        vals = [tg.build(recipe['equal_to']).obj]
+        vals = [bval(recipe['equal_to'])]
+        test = lambda: sub == vals[0]                                     # ("==")
     elif recipe['one_of'] is not None:
-        vals = [tg.build(x).obj for x in recipe['one_of']]
+        vals = [bval(x) for x in recipe['one_of']]
+        test = lambda: sub in spell_one_of(vals, recipe.get('one_of_as'))   # Python's own "in" on a fresh container
+    if vals is not None:
         try:
-            sub in spell_one_of(vals, recipe.get('one_of_as'))       # Python's own "in" on a fresh container
+            listed = bool(test())
         except Exception as e:
-            out['member_exc'] = e
-    if vals is not None and sub not in vals:
-        failed.append('value')
+            listed, out['member_exc'] = False, e
+        # "an iterable of values, any of which can match": the reading by iteration has to say the same as "in", else the
+        # case is outside what this check decides (a generator bug: e.g. 'ab' in 'abc')
+        try:
+            by_iteration = any(v is sub or bool(v == sub) for v in vals)
+        except Exception:
+            by_iteration = False
+        if by_iteration != listed:
+            raise HarnessBug('one_of=%r target=%r: "in" says %r, iterating the values says %r'
+                             % (recipe.get('one_of_as'), sub, listed, by_iteration))
+        if not listed:
+            failed.append('value')
     # "validate: a callable or list of callables ... If one or more return False or raise an exception, the Check will fail"
     if recipe['validate']:
         for n in recipe['validate']:
@@ -1204,22 +1463,23 @@ def eval_check(spec, recipe, target, ref, where):
         got = ('raise', e) if type(e).__name__.startswith('GlomError.wrap(') else ('glomerr', e)
     except Exception as e:
         got = ('raise', e)
+    wrapped = recipe.get('wrap') is not None
     if not ref['access']:
-        if got[0] != 'glomerr' or not isinstance(got[1], PathAccessError):
+        if wrapped:
+            # (Or goes on to Val('alt') / Match returns its default: the module's rule for a failing access below Or)
+            if got[0] != 'ok' or got[1] != ALT:
+                raise Mismatch('check-access', '%s: sub-spec access fails, expected %r, got %r' % (where, ALT, got))
+        elif got[0] != 'glomerr' or not isinstance(got[1], PathAccessError):
             raise Mismatch('check-access', '%s: sub-spec access fails, expected PathAccessError, got %r' % (where, got))
         return got[0]
     failed, sub = ref['failed'], ref['sub']
-    if ref['member_exc'] is not None:
-        # Python's own `sub in one_of` raises: a failed condition (statement) or that exception ("in"), see ASSUMPTIONS
-        if got[0] == 'raise' and isinstance(got[1], type(ref['member_exc'])):
-            return 'member-raise'
-        if got[0] == 'check' and recipe['default'] is None:
-            return got[0]
-        if got[0] == 'ok' and recipe['default'] is not None and values_equal(got[1], ref_default(recipe['default'], sub)):
-            return got[0]
-        raise Mismatch('check-membership-raises', '%s: `%r in one_of` raises %r; expected a failed condition or that exception, '
-                       'got %r' % (where, sub, ref['member_exc'], got))
     if got[0] == 'raise':
+        if ref['member_exc'] is not None:
+            raise Mismatch('check-membership-raises', '%s: the membership test of %r cannot be evaluated (%r): the value is not '
+                           'one of those listed, conditions failed: %r; expected %s, glom raised %s: %r'
+                           % (where, sub, ref['member_exc'], failed,
+                              'the default' if recipe['default'] is not None else repr(ALT) if wrapped else 'CheckError',
+                              type(got[1]).__name__, got[1]))
         raise Mismatch('check-unexpected-exception', '%s: conditions failed: %r; glom raised %s: %r'
                        % (where, failed, type(got[1]).__name__, got[1]))
     if not failed:
@@ -1231,6 +1491,10 @@ def eval_check(spec, recipe, target, ref, where):
         expd = ref_default(recipe['default'], sub)
         if got[0] != 'ok' or not values_equal(got[1], expd):
             raise Mismatch('check-default', '%s: failed %r, expected default %r, got %r' % (where, failed, expd, got))
+    elif wrapped:
+        # the Check fails: Or yields its next child's result, Match its default
+        if got[0] != 'ok' or got[1] != ALT:
+            raise Mismatch('check-wrapped', '%s: conditions failed %r, expected %r, got %r' % (where, failed, ALT, got))
     else:
         if got[0] != 'check':
             raise Mismatch('check-false-accept', '%s: conditions failed %r, got %r' % (where, failed, got))
@@ -1259,15 +1523,28 @@ def check_checkkw(recipe, ctx):
               'default' if recipe['default'] is not None else 'no-default')
     if any(r['validator_raised'] for r in refs):
         ctx.label('validator-raises')
-    if any(r['member_exc'] is not None for r in refs):
-        ctx.label('membership-raises')
     one_of_as = recipe.get('one_of_as') or 'list'
+    if any(r['member_exc'] is not None for r in refs):
+        # the membership test cannot be evaluated; by what it is made of, and by who has to react to the failed condition
+        ctx.label('membership-raises')
+        ctx.label('membership-raises-' + ('equal_to' if recipe['equal_to'] is not None else
+                                          'hashed' if one_of_as in HASHED else 'str' if one_of_as == 'str' else 'eq'))
+        ctx.label('membership-raises-' + ('default' if recipe['default'] is not None else
+                                          'wrapped' if recipe.get('wrap') else 'no-default'))
     if recipe['one_of'] is not None:
         ctx.label('one_of-' + one_of_as)
         value_rejected = [r['access'] and r['member_exc'] is None and 'value' in r['failed'] for r in refs]
         if len(recipe['one_of']) == 1 and one_of_as in UNINDEXABLE and recipe['default'] is None and any(value_rejected):
             # exactly one value, in a container without [0], and the rejection has to be reported by CheckError
             ctx.label('one_of-single-unindexable-reject')
+        if one_of_as == 'reiter' and recipe['default'] is None and any(value_rejected):
+            # a container without len(), and the rejection has to be reported (CheckError, or to the Or / Match around)
+            ctx.label('one_of-reiter-reject-no-default')
+        if any(t[0] == 'tag' or (t[0] == 'xdict' and t[1][0][1][0] == 'tag') for t in trecipes) and \
+                any(r['access'] and not r['failed'] for r in refs):
+            ctx.label('one_of-unhashable-listed')        # an unhashable target that is equal to a listed value: passes
+        if one_of_as in ('reiter', 'str') and any(r['access'] and 'value' not in r['failed'] for r in refs):
+            ctx.label('one_of-%s-listed' % one_of_as)
         if one_of_as in ONE_SHOT and len(targets) >= 2:
             ctx.label('one_of-oneshot-reused')
             if any(r['access'] and 'value' not in r['failed'] for r in refs[1:]):
@@ -1280,6 +1557,8 @@ def check_checkkw(recipe, ctx):
             # both outcomes of the condition are of interest: an instance of the class, and something else
             ctx.label('bare-iterable-class-' + ('fails' if first['access'] and k in first['failed'] else 'holds-or-na'))
             break
+    if recipe.get('wrap'):
+        ctx.label('wrapped-' + recipe['wrap'])
     if len(targets) >= 2:
         ctx.label('evaluated-again')
     ctx.nontrivial(len([k for k in kw if k != 'default']) >= 2 or (first['failed'] and recipe['default'] is not None)
@@ -1313,17 +1592,30 @@ SUBS = [
                 'cmp-raises-other': 0.03, 'cmp-raises-other-recovered': 0.02, 'cmp-raises-other-subspec': 0.015,
                 'cmp-raises-other-reflected': 0.002, 'cmp-raises-ArithmeticError': 0.003, 'cmp-raises-AttributeError': 0.003,
                 'cmp-raises-ValueError': 0.003, 'cmp-raises-LookupError': 0.003, 'cmp-raises-OwnException': 0.003,
-                'cmp-raises-RecursionError': 0.003, 'exotic-operand-evaluated': 0.0035}),
+                'cmp-raises-RecursionError': 0.003, 'exotic-operand-evaluated': 0.0035,
+                # a bare M / M(T[k]) on a value without a truth value: overall, below something that reacts, as M(T[k])
+                'no-truth-value': 0.025, 'no-truth-value-recovered': 0.018, 'no-truth-value-subspec': 0.009}),
     Sub('switch', check_switch, gen=gen_switch, quick=3000, thorough=10000,
         floors={'exp-ok': 0.2, 'exp-rej': 0.05, 'cmp-raises': 0.15, 'cmp-raises-recovered': 0.1,
-                'cmp-raises-other': 0.06, 'cmp-raises-other-recovered': 0.045, 'cmp-raises-other-subspec': 0.022,
+                'cmp-raises-other': 0.06, 'cmp-raises-other-recovered': 0.04, 'cmp-raises-other-subspec': 0.022,
                 'cmp-raises-ArithmeticError': 0.004, 'cmp-raises-AttributeError': 0.004, 'cmp-raises-ValueError': 0.004,
-                'cmp-raises-LookupError': 0.004, 'cmp-raises-OwnException': 0.004, 'cmp-raises-RecursionError': 0.004}),
+                'cmp-raises-LookupError': 0.004, 'cmp-raises-OwnException': 0.004, 'cmp-raises-RecursionError': 0.004,
+                'no-truth-value': 0.06, 'no-truth-value-recovered': 0.035, 'no-truth-value-subspec': 0.011}),
     Sub('checkkw', check_checkkw, gen=gen_check, quick=4000, thorough=15000,
         floors={'pass': 0.05, 'default': 0.2, 'one_of-single-unindexable-reject': 0.02, 'bare-iterable-class': 0.09,
                 'bare-iterable-class-fails': 0.05, 'bare-iterable-class-holds-or-na': 0.028, 'one_of-list': 0.015,
                 'one_of-tuple': 0.015, 'one_of-set': 0.015, 'one_of-frozenset': 0.015, 'one_of-dict': 0.015,
-                'one_of-keys': 0.015}),
+                'one_of-keys': 0.015, 'one_of-reiter': 0.04, 'one_of-str': 0.02,
+                # a membership test that cannot be evaluated: overall; by what it is made of (a hashed container and an
+                # unhashable target, a str and a non-str, an == that raises inside one_of / as equal_to); by who has to react
+                # (the Check's default, CheckError, an Or / Match around the Check)
+                'membership-raises': 0.1, 'membership-raises-hashed': 0.05, 'membership-raises-str': 0.013,
+                'membership-raises-eq': 0.015, 'membership-raises-equal_to': 0.012, 'membership-raises-default': 0.055,
+                'membership-raises-no-default': 0.027, 'membership-raises-wrapped': 0.012,
+                # a re-iterable without __len__: a value that is not listed and has to be reported; listed values (also of a str)
+                'one_of-reiter-reject-no-default': 0.016, 'one_of-reiter-listed': 0.011, 'one_of-str-listed': 0.0035,
+                # an unhashable target that is equal to a listed value (one_of a sequence: `in` scans it): passes
+                'one_of-unhashable-listed': 0.007}),
     Sub('checkreuse', check_checkkw, gen=gen_checkreuse, quick=1500, thorough=6000,
         floors={'one_of-oneshot-later-hit': 0.28, 'one_of-oneshot-reject-no-default': 0.15, 'one_of-iter': 0.25,
                 'one_of-gen': 0.18, 'pass': 0.15}),
